@@ -141,7 +141,7 @@ fn spec_of(text: &str) -> AssetSpec {
     s
 }
 
-fn show_binary(b: &AssetBinary) -> String {
+pub fn show_binary(b: &AssetBinary) -> String {
     let mut parts = vec![b.flags.to_string()];
     for s in &b.specs {
         parts.push(show_spec(s));
